@@ -154,8 +154,10 @@ STORE_RULE = ("cases: operation sequences (put seeder/leecher, graduate, delete,
 PROPS["C01"] = dict(
     lean_targets=["Chihaya.Props.C01"],
     props_files=["Chihaya/Props/C01.lean"],
-    streams=[dict(name="C01", quick=18000, thorough=600000)],
-    rule=STORE_RULE, trusted=STORE_TRUST, assumptions=["no storage failures (Redis errors are not injected)"],
+    streams=[dict(name="C01", quick=18000, thorough=600000), dict(name="C01T", quick=4000, thorough=150000)],
+    rule=STORE_RULE + "; plus announce/scrape histories through the real Logic and both real frontends (stream C01T) where the counts of every announce "
+         "response are judged against the swarm's counts before and after (reading R2)",
+    trusted=STORE_TRUST, assumptions=["no storage failures (Redis errors are not injected)"],
 )
 PROPS["C02"] = dict(
     lean_targets=["Chihaya.Props.C02"],
@@ -180,6 +182,33 @@ PROPS["C17"] = dict(
     props_files=["Chihaya/Props/C17.lean"],
     streams=[dict(name="C17", quick=18000, thorough=600000)],
     rule=STORE_RULE + "; the exported gauges are read after every mutating step", trusted=STORE_TRUST, assumptions=["no storage failures"],
+)
+
+
+TRK_TRUST = STORE_TRUST + UDP_TRUST + ["overlay shim harness/shims/frontend/http (the router of a non-listening Frontend)",
+    "hooks in the harness are table-driven (accept / reject-client / reject-internal / set either skip flag / mutate the response / tag the context); arbitrary hooks are covered by the theorems only",
+    "post-response hooks run in goroutines: the harness waits for their completion signal (2 s) when they are expected, 300 us when they are not"]
+
+PROPS["C12"] = dict(
+    lean_targets=["Chihaya.Props.C12"],
+    props_files=["Chihaya/Props/C12.lean"],
+    streams=[dict(name="C12", quick=6000, thorough=250000)],
+    rule="cases: random chains of 0-6 pre-hooks and 0-4 post-hooks (accepting, rejecting with client / internal errors, setting SkipSwarmInteraction / SkipResponseHook, "
+         "mutating the response, tagging the context) through the real middleware.Logic behind the real HTTP router and the real UDP handleRequest, on coherent "
+         "announce/scrape histories over a real store (memory or Redis); compared: error class, counts, intervals, number of peers, pre- and post-hook invocation logs, "
+         "and the full store dump after every request; non-trivial = requests that reached the logic (hook rejections and served requests; model tags), distinct op lines",
+    trusted=TRK_TRUST, assumptions=["no storage failures"],
+)
+PROPS["C13"] = dict(
+    lean_targets=["Chihaya.Props.C13"],
+    props_files=["Chihaya/Props/C13.lean"],
+    streams=[dict(name="C13", quick=8000, thorough=400000), dict(name="C07", quick=6000, thorough=100000), dict(name="C06", quick=6000, thorough=100000)],
+    rule="cases: malformed and well-formed requests interleaved (raw/truncated/rendered URIs, odd remote addresses; truncated, bit-flipped, option-laden and garbage "
+         "datagrams with valid connection IDs) through both real frontends, the real Logic with hook chains and a real store holding a non-trivial state; every call "
+         "runs under recover; panics, double datagrams, post-hooks after errors and leaks are reported as failures by the property oracle; the store is dumped after "
+         "every request; plus the parser streams of C06/C07; non-trivial = every request (model tag), distinct op lines",
+    trusted=TRK_TRUST + ["net/http request-line/header syntax is outside the model (the handler is entered at RequestURI/Header/RemoteAddr)"],
+    assumptions=["hooks are total (a panicking third-party hook is outside the property)"],
 )
 
 
@@ -237,7 +266,7 @@ def context_of(stream, ops, i):
     return list(reversed(ctx))
 
 
-STATELESS = {"benc", "vi", "cfg", "appr", "http", "udp", "httpw"}  # st.* (store) operations are stateful: context back to st.reset
+STATELESS = {"benc", "vi", "cfg", "appr", "http", "udp", "httpw"}  # trk.* and st.* (store) operations are stateful: context back to st.reset
 
 
 def oracle(pid, stream, op, impl, model):
@@ -262,7 +291,9 @@ def judge(pid, stream, op, impl):
     if f is None:
         return None
     try:
-        return f(args_of(op), impl)
+        a = args_of(op)
+        a["_pid"] = pid
+        return f(a, impl)
     except Exception as e:  # a malformed observation is itself a failure of the tie
         return f"unjudgeable observation: {e}"
 
@@ -286,7 +317,35 @@ def judge_vi_handle(a, impl):
     return None
 
 
-JUDGES = {"vi.handle": judge_vi_handle}
+def judge_trk(a, impl):
+    """R2 (DESIGN §7): counts reported in an announce response lie between the swarm's counts
+    before and after the announce is applied (scrape counts are exact and compared with the model)."""
+    if not impl.startswith("ok ") or "pre=" not in impl:
+        if impl.startswith(("PANIC", "TWO-DATAGRAMS", "AFTER-RAN", "UNDECODABLE", "SENTINEL-LOST")):
+            return "request handling failed: " + impl.split(" ")[0]
+        if "cls=LEAK" in impl:
+            return "internal error detail disclosed to the client"
+        return None
+    if a.get("_pid") != "C01":
+        return None  # the count oracle (reading R2) belongs to C01; C12/C13 judge crashes, leaks and stray post-hooks only
+    if "Sr" in a.get("pre", "").split(","):
+        return None  # a hook asked to skip the response hook: counts are not filled in
+    o = args_of("x " + impl)
+    if not o.get("pre") or not o.get("post") or "/" not in o["pre"] or "/" not in o["post"]:
+        return None
+    c, i = int(o["c"]), int(o["i"])
+    pc, pi = (int(x) for x in o["pre"].split("/"))
+    qc, qi = (int(x) for x in o["post"].split("/"))
+    n = int(o.get("n4", 0)) + int(o.get("n6", 0))
+    for name, v, lo, hi in (("complete", c, min(pc, qc), max(pc, qc)), ("incomplete", i, min(pi, qi), max(pi, qi))):
+        if not (lo <= v <= hi):
+            bump = " (count bump: the store offered nobody, the response holds only the announcer itself and counts it although the swarm does not, or not in that role)" \
+                if (v == hi + 1 and n == 1 and a.get("self") == "1") else ""
+            return f"announce response reports {name}={v} but the swarm held {lo}..{hi} before/after this announce{bump}"
+    return None
+
+
+JUDGES = {"vi.handle": judge_vi_handle, "trk.http_announce": judge_trk, "trk.udp": judge_trk, "trk.http_scrape": judge_trk}
 
 
 def matches(finding, failing):
@@ -296,6 +355,8 @@ def matches(finding, failing):
     if "impl" in m and not re.search(m["impl"], failing["impl"]):
         return False
     if "context" in m and not any(re.search(m["context"], l) for l in failing["context"] + [failing["op"]]):
+        return False
+    if "reason" in m and not re.search(m["reason"], failing.get("model", "")):
         return False
     return True
 
